@@ -1097,7 +1097,7 @@ func (x *Exec) checkFrameAgainst(st, base *State, kind, prefix string, ins ssa.I
 		if !ok {
 			h0 = base.lazyVersion(false, k, h.Sort)
 		}
-		if h == h0 || frameExempt(k) || strings.HasPrefix(k, "global:") {
+		if h == h0 || frameExempt(k) || strings.HasPrefix(k, "global:") || x.volatileKeys[k] {
 			continue
 		}
 		if x.keyIsProtected(k) {
